@@ -6,6 +6,7 @@ from harness import refmodel
 # ---------------------------------------------------------------------------
 # strategy
 # ---------------------------------------------------------------------------
+NEST_KINDS = ("vvdist", "vscan", "scanv", "condv", "vcond")
 CONT = ["normal", "normal", "uniform", "exponential", "beta", "gamma"]
 DISC = ["flip", "flip", "categorical", "bernoulli"]
 
@@ -41,6 +42,8 @@ class FnGen:
             return ref
         if kind in ("b", "i"):
             return ["fl", ref]
+        if len(kind) == 3:  # matrix-valued binding (direct combinator nesting): only its total enters later expressions
+            return ["sum", ref if kind[0] == "FM" else ["fl", ref]]
         tag, n = kind
         e = ref if tag == "F" else ["fl", ref]
         return ["sum", e] if d(st.booleans()) else ["idx", e, d(st.integers(0, n - 1))]
@@ -120,7 +123,8 @@ class FnGen:
     def stmt(self, allow):
         d = self.draw
         ok = {"draw": True, "vdist": True, "call": bool(self.plain), "vmap": any(not s["kw"] for s in self.plain.values()),
-              "scan": bool(self.steps), "cond": bool(self.cfg["cond_pairs"]) and all(p[0] in self.plain for p in self.cfg["cond_pairs"])}
+              "scan": bool(self.steps), "cond": bool(self.cfg["cond_pairs"]) and all(p[0] in self.plain for p in self.cfg["cond_pairs"]),
+              "nest": True}
         kind = d(st.sampled_from([k for k in allow if ok[k]] or ["draw"]))
         a = self.addr()
         if kind == "draw":
@@ -171,6 +175,8 @@ class FnGen:
             self.vars.append((["sc", a], "f"))
             self.vars.append((["so", a], ("F", L)))
             self.n_sites += L * self.steps[f]["sites"]
+        elif kind == "nest":
+            self.nest_stmt(a)
         elif kind == "cond":
             ft, ff = d(st.sampled_from(sorted(self.cfg["cond_pairs"])))
             sig = self.plain[ft]
@@ -180,6 +186,72 @@ class FnGen:
             self.body.append(stmt)
             self.vars.append((["v", a], "f"))
             self.n_sites += sig["sites"]
+
+
+def _lanewise(p, v, dist):
+    """Apply the (elementwise) constraint map of the scalar parameter expression p to the array expression v."""
+    wrap = p[0] if p[0] in ("pos", "prob") else None
+    return [wrap, v] if wrap else (["aff", 2.0, ["tanh", v], 0.0] if dist == "bernoulli" else v)
+
+
+def _nest_stmt(self, a):
+    """Combinators applied directly to combinators (no @gen function in between):
+    vvdist  dist.vmap(in).vmap(out)            vscan  Scan(step).vmap((0, None))      scanv  Scan(step.vmap((0, 0)))
+    condv   Cond(fT.vmap(ax), fF.vmap(ax))     vcond  Cond(fT, fF).vmap((0,) + ax)    (per-lane predicate)"""
+    d = self.draw
+    pairs = [p for p in self.cfg["cond_pairs"] if p[0] in self.plain and not self.plain[p[0]]["kw"]]
+    kinds = ["vvdist"] + (["vscan", "scanv"] if self.steps else []) + (["condv", "vcond", "vcond"] if pairs else [])
+    want = self.cfg.get("nest_kinds")
+    kinds = [k for k in kinds if not want or k in want] or kinds
+    kind = d(st.sampled_from(kinds))
+    if kind == "vvdist":
+        dist = d(st.sampled_from(["flip", "bernoulli"] if self.cfg["discrete"] else ["normal", "exponential", "flip", "gamma"]))
+        n_out, n_in = d(st.sampled_from([(2, 3), (3, 2), (2, 2)]))
+        ps = self.dist_params(dist)
+        lay = [d(st.sampled_from(["s", "i", "o", "m"])) for _ in ps]
+        if not any(x in "om" for x in lay):
+            lay[0] = "m" if lay[0] == "i" else "o"
+        if not any(x in "im" for x in lay):
+            lay[-1] = "m" if lay[-1] == "o" else "i"
+        ps2 = []
+        for p, l in zip(ps, lay):
+            if l == "s":
+                ps2.append(p)
+            elif l == "m":
+                ps2.append(_lanewise(p, ["stack", [self.vector(n_in) for _ in range(n_out)]], dist))
+            else:
+                ps2.append(_lanewise(p, self.vector(n_in if l == "i" else n_out), dist))
+        self.body.append(["vvdist", a, dist, lay, n_out, n_in, ps2])
+        self.vars.append((["v", a], ({"flip": "BM", "bernoulli": "IM"}.get(dist, "FM"), n_out, n_in)))
+        self.n_sites += n_out * n_in
+    elif kind in ("vscan", "scanv"):
+        f = d(st.sampled_from(sorted(self.steps)))
+        n, L = d(st.sampled_from([(2, 3), (3, 2), (2, 1), (2, 2)]))
+        init = self.vector(n)
+        xs = self.vector(L) if kind == "vscan" else ["stack", [self.vector(n) for _ in range(L)]]
+        self.body.append([kind, a, f, n, L, init, xs])
+        self.vars.append((["sc", a], ("F", n)))
+        self.vars.append((["so", a], ("FM", n, L) if kind == "vscan" else ("FM", L, n)))
+        self.n_sites += n * L * self.steps[f]["sites"]
+    else:
+        ft, ff = d(st.sampled_from(sorted(pairs)))
+        sig = self.plain[ft]
+        n = d(st.integers(2, 3))
+        axes = [d(st.sampled_from([0, 0, None])) for _ in range(sig["np"])]
+        if kind == "condv" and all(ax is None for ax in axes):
+            axes[0] = 0
+        args = [self.vector(n) if ax == 0 else self.scalar(0) for ax in axes]
+        if kind == "condv":
+            pred = self.pred()
+        else:
+            bvs = [r for r, k in self.vars if k == ("B", n)]
+            pred = d(st.sampled_from(bvs)) if bvs and d(st.booleans()) else ["gt", self.vector(n), d(fconst)]
+        self.body.append([kind, a, pred, ft, ff, n, axes, args])
+        self.vars.append((["v", a], ("F", n)))
+        self.n_sites += n * sig["sites"]
+
+
+FnGen.nest_stmt = _nest_stmt
 
 
 def _gen_fn(draw, cfg, plain, steps, is_step, n_stmts, allow, n_params=None, kw=()):
@@ -207,10 +279,12 @@ def _perturb_fn(draw, fn):
 
 
 @st.composite
-def programs(draw, discrete=False, max_sites=14, combinators=("call", "vmap", "scan", "cond", "vdist"), kwargs=True,
-             event_dists=("mvnormal", "dirichlet"), force=None):
+def programs(draw, discrete=False, max_sites=14, combinators=("call", "vmap", "scan", "cond", "vdist", "nest"), kwargs=True,
+             event_dists=("mvnormal", "dirichlet"), force=None, nest_kinds=None):
     """A whole program.  `force`: a combinator kind that main must contain (biasing, by construction)."""
-    cfg = {"discrete": discrete, "cond_pairs": [], "event_dists": list(event_dists)}
+    cfg = {"discrete": discrete, "cond_pairs": [], "event_dists": list(event_dists), "nest_kinds": nest_kinds}
+    if force in NEST_KINDS:
+        cfg["nest_kinds"], force = [force], "nest"
     fns, order, plain, steps = {}, [], {}, {}
     # leaf functions
     n_leaf = draw(st.integers(1, 2))
@@ -276,9 +350,9 @@ def prune(prog):
             continue
         reach.add(f)
         for s in prog["fns"][f]["body"]:
-            if s[0] in ("call", "vmap", "scan"):
+            if s[0] in ("call", "vmap", "scan", "vscan", "scanv"):
                 todo.append(s[2])
-            elif s[0] == "cond":
+            elif s[0] in ("cond", "condv", "vcond"):
                 todo += [s[3], s[4]]
     return {"fns": {k: v for k, v in prog["fns"].items() if k in reach}, "order": [k for k in prog["order"] if k in reach], "main": prog["main"]}
 
@@ -292,11 +366,13 @@ def features(prog):
         for s in fn["body"]:
             if s[0] != "draw":
                 out.add(s[0])
+            if s[0] in NEST_KINDS:
+                out.add("nest")
             elif s[2] in ("mvnormal", "dirichlet"):
                 out.add("event")
-            if s[0] in ("draw", "vdist") and _mentions_var(s[-1]):
+            if s[0] in ("draw", "vdist", "vvdist") and _mentions_var(s[-1]):
                 out.add("dep")
-            if name != prog["main"] and s[0] in ("vmap", "scan", "cond", "vdist"):
+            if name != prog["main"] and s[0] in ("vmap", "scan", "cond", "vdist") + NEST_KINDS:
                 out.add("nested_combinator")
     return out
 
@@ -310,7 +386,7 @@ def _mentions_var(e):
 
 
 def n_leaf_sites(prog):
-    return sum(1 for fn in prog["fns"].values() for s in fn["body"] if s[0] in ("draw", "vdist"))
+    return sum(1 for fn in prog["fns"].values() for s in fn["body"] if s[0] in ("draw", "vdist", "vvdist"))
 
 
 # ---------------------------------------------------------------------------
@@ -361,6 +437,28 @@ def build(prog, all_fns=False):
                 elif kind == "scan":
                     _, _, f, L, init, xs = s
                     env["v"][addr] = Scan(built[f], length=const(L))(refmodel.ev(init, env, jnp), refmodel.ev(xs, env, jnp)) @ addr
+                elif kind == "vvdist":
+                    _, _, dist, lay, n_out, n_in, pex = s
+                    ps = [refmodel.ev(e, env, jnp) for e in pex]
+                    inner = D[dist].vmap(in_axes=tuple(0 if l in "im" else None for l in lay))
+                    env["v"][addr] = inner.vmap(in_axes=tuple(0 if l in "om" else None for l in lay))(*ps) @ addr
+                elif kind == "vscan":
+                    _, _, f, n, L, init, xs = s
+                    vs = Scan(built[f], length=const(L)).vmap(in_axes=(0, None))
+                    env["v"][addr] = vs(refmodel.ev(init, env, jnp), refmodel.ev(xs, env, jnp)) @ addr
+                elif kind == "scanv":
+                    _, _, f, n, L, init, xs = s
+                    sv = Scan(built[f].vmap(in_axes=(0, 0)), length=const(L))
+                    env["v"][addr] = sv(refmodel.ev(init, env, jnp), refmodel.ev(xs, env, jnp)) @ addr
+                elif kind in ("condv", "vcond"):
+                    _, _, pred, ft, ff, n, axes, aex = s
+                    a = [refmodel.ev(e, env, jnp) for e in aex]
+                    p = jnp.asarray(refmodel.ev(pred, env, jnp), dtype=bool)
+                    if kind == "condv":
+                        c = Cond(built[ft].vmap(in_axes=tuple(axes)), built[ff].vmap(in_axes=tuple(axes)))
+                    else:
+                        c = Cond(built[ft], built[ff]).vmap(in_axes=(0,) + tuple(axes))
+                    env["v"][addr] = c(p, *a) @ addr
                 elif kind == "cond":
                     pred, ft, ff, aex = s[2:6]
                     a = [refmodel.ev(e, env, jnp) for e in aex]
